@@ -15,8 +15,15 @@ def sh(cmd, cwd=None, env=None, timeout=900):
     return r.returncode, (r.stdout + r.stderr)
 
 
+KS = (1, 2, 3, 4)
+
+
 def main():
-    only = sys.argv[1:]
+    global KS
+    only = [a for a in sys.argv[1:] if not a.startswith('-k')]
+    for a in sys.argv[1:]:
+        if a.startswith('-k'):
+            KS = tuple(int(x) for x in a[2:].split(','))
     subprocess.run(f"git -C /repo worktree remove --force {WT}", shell=True, capture_output=True)
     sh(f"git -C /repo worktree add --detach {WT} HEAD")
     env = dict(os.environ, PYTHONPATH=f"{WT}/src", PYTHONHASHSEED="0")
@@ -25,7 +32,7 @@ def main():
         for pid in sorted(os.listdir(INC)):
             if only and pid not in only:
                 continue
-            for k in (1, 2):
+            for k in KS:
                 d = f"{INC}/{pid}"
                 patch, demo, note = f"{d}/patch{k}.diff", f"{d}/demo{k}.py", f"{d}/note{k}.txt"
                 if not os.path.exists(patch):
